@@ -37,6 +37,34 @@ func (e *Engine) execCall(st *State, c *ssa.CallCommon, instr ssa.Instruction, p
 	}
 	switch f := c.Value.(type) {
 	case *ssa.Builtin:
+		if f.Name() == "append" && e.cur != nil && e.cur.fc != nil && e.cur.fc.Opts["forkappend"] != "" && st.fr.parent == nil {
+			// fork on "fits in place" so that each path sees one array, not an ite of two
+			if s, ok := e.get(st, c.Args[0]).(SliceV); ok {
+				var n *smt.Term
+				switch x := e.get(st, c.Args[1]).(type) {
+				case SliceV:
+					n = x.Len
+				case StrV:
+					n = x.Len
+				}
+				if n != nil && !(n.IsConst() && n.Val.Sign() == 0) {
+					fits := smt.Le(smt.Add(s.Len, n), s.Cap)
+					if !fits.IsBoolConst() {
+						s2 := st.clone()
+						st.assume(fits)
+						st.label("append:inplace")
+						e.appendForce = 1
+						r1 := e.execBuiltin(st, f, c, instr, pos)
+						s2.assume(smt.Not(fits))
+						s2.label("append:grow")
+						e.appendForce = 2
+						r2 := e.execBuiltin(s2, f, c, instr, pos)
+						e.appendForce = 0
+						return []outcome{{st: st, result: r1}, {st: s2, result: r2}}
+					}
+				}
+			}
+		}
 		return one(e.execBuiltin(st, f, c, instr, pos))
 	case *ssa.Function:
 		args := make([]Value, len(c.Args))
@@ -236,6 +264,12 @@ func (e *Engine) execAppend(st *State, args []Value, c *ssa.CallCommon, pos toke
 	st.assume(smt.Le(newCap, smt.BigC(maxLen)))
 	var res SliceV
 	inPlace := fits
+	switch e.appendForce {
+	case 1:
+		inPlace = smt.True
+	case 2:
+		inPlace = smt.False
+	}
 	if n.IsConst() && n.Val.Sign() == 0 {
 		// appending nothing: Go returns s unchanged (when s non-nil or zero)
 		return s
